@@ -431,6 +431,10 @@ func (o OneOfSchema[KeyType]) findUnderlyingType(data any) (KeyType, Object, err
 // declaration.
 func (o OneOfSchema[KeyType]) validateSubtypeDiscriminatorInlineFields() error {
 	for key, typeValue := range o.TypesValue {
+		if ref, isRef := typeValue.(Ref); isRef && !ref.ObjectReady() {
+			// The reference belongs to a namespace that has not been applied yet. It is checked when it is.
+			continue
+		}
 		typeValueDiscriminatorValue, hasDiscriminator := typeValue.Properties()[o.DiscriminatorFieldNameValue]
 		switch {
 		case !o.DiscriminatorInlined && hasDiscriminator:
